@@ -2,7 +2,10 @@ module verifharness
 
 go 1.25.5
 
-require github.com/titpetric/vuego v0.0.0
+require (
+	github.com/titpetric/vuego v0.0.0
+	golang.org/x/net v0.51.0
+)
 
 require (
 	github.com/davecgh/go-spew v1.1.2-0.20180830191138-d8f796af33cc // indirect
@@ -12,7 +15,6 @@ require (
 	github.com/stretchr/testify v1.11.1 // indirect
 	github.com/titpetric/lessgo v0.1.0 // indirect
 	github.com/titpetric/platform v0.2.3 // indirect
-	golang.org/x/net v0.51.0 // indirect
 	gopkg.in/yaml.v3 v3.0.1 // indirect
 )
 
